@@ -18,6 +18,75 @@ def method(py, name):
     return py.func('annotationparser', name)
 
 
+def _splitters(S, sep):
+    out = []
+    for c in S.effects:
+        if c.kind == 'call' and re.search(r'\.(r?split|r?partition)$', c.target) and c.args and c.args[0] == repr(sep):
+            out.append(c)
+    return out
+
+
+def kv_split_rule(ctx, r1):
+    """key=value options are split on single spaces and each at the FIRST "=" only (shared by C01: (attributes k=v) values may contain "=")"""
+    py = ctx.py
+    rel = py.mod('annotationparser').rel
+    pd = method(py, 'GtkDocCommentBlockParser._parse_annotation_options_dict')
+    # dict parser: options split on ' ', each at the first '=' only
+    PD = gsa.summarise(ctx, 'annotationparser', 'GtkDocCommentBlockParser._parse_annotation_options_dict', inline_only=())
+    optp = [a_.arg for a_ in pd.args.args][-1]
+
+    def splitters(S, sep):
+        out = []
+        for c in S.effects:
+            if c.kind == 'call' and re.search(r'\.(r?split|r?partition)$', c.target) and c.args and c.args[0] == repr(sep):
+                out.append(c)
+        return out
+    osp = splitters(PD, ' ')
+    r1.check(len(osp) == 1 and osp[0].target == '%s.split' % optp and osp[0].args == ["' '"], 'dict options split on the serialiser\'s separator', rel, pd.lineno, 'option splits: %s' % [c.value for c in osp])
+    kv = splitters(PD, '=')
+    okkv = len(kv) == 1 and ((kv[0].target.endswith('.split') and kv[0].args == ["'='", '1']) or (kv[0].target.endswith('.partition') and kv[0].args == ["'='"]))
+    r1.check(okkv, 'key=value split at the first "=" only', rel, pd.lineno,
+             'key=value pairs are split with %s: a value that itself contains "=" (URLs, base64) is lost' % ([c.value for c in kv],), detail=[c.value for c in kv])
+    stores = [e for e in PD.effects if e.kind == 'store' and re.match(r'^\w+\[.*\]$', e.target)]
+    half = r"\.split\('=', 1\)\[%d\]$|\.partition\('='\)\[%d\]$"
+    okhalves = bool(stores) and all(re.search(half % (0, 0), e.target[:-1]) for e in stores) and \
+        sorted(set('None' if e.value == 'None' else ('second' if re.search(half % (1, 2), e.value) else e.value) for e in stores)) == ['None', 'second']
+    r1.check(okhalves, 'key and value taken from the two halves', rel, pd.lineno, 'stores: %s' % [(e.target, e.value) for e in stores])
+
+
+HELPERS = ('_parse_annotations', '_parse_fields', '_parse_annotation', '_parse_annotation_options_list')
+
+
+def continuation_rule(ctx, rule):
+    """annotations written over several lines accumulate: a parse result that replaces the annotations of an object that
+    already exists (the current block / parameter / tag on a continuation line) must have been started from that object's
+    own annotations (shared by C01, C03 and C10)"""
+    PCB = gsa.summarise(ctx, 'annotationparser', 'GtkDocCommentBlockParser.parse_comment_block', opaque=HELPERS + ('_validate_multiline_annotation_continuation',))
+    rel = ctx.py.mod('annotationparser').rel
+    n = 0
+    for e in PCB.effects:
+        if e.kind != 'store' or not e.target.endswith('.annotations') or e.vnode is None:
+            continue
+        v = e.vnode
+        if not (isinstance(v, ast.Attribute) and v.attr == 'annotations' and isinstance(v.value, ast.Call) and (P.call_name(v.value) or '') in ('self._parse_fields', 'self._parse_annotations')):
+            continue
+        obj = e.target[:-len('.annotations')]
+        fresh = re.match(r'^GtkDoc\w+\(', obj) is not None
+        call = v.value
+        f = ctx.py.func('annotationparser', 'GtkDocCommentBlockParser.' + P.call_name(call)[5:])
+        b = P.bind_call(call, f)
+        given = gsa._unparse(b['annotations']) if b.get('annotations') is not None else None
+        n += 1
+        if fresh:
+            rule.ok('first line of %s starts from empty annotations' % obj[:30], rel, e.line)
+        else:
+            rule.check(given == '%s.annotations' % obj, 'continuation line extends the annotations of %s' % obj, rel, e.line,
+                       'on a continuation line the annotations of `%s` are replaced by the result of %s(... annotations=%s): annotations written on the earlier line(s) '
+                       'of the same identifier / parameter / tag are dropped' % (obj, P.call_name(call), given), detail=given)
+    if n < 4:
+        raise AnalysisError('parse_comment_block: only %d sites where parsed annotations are applied' % n)
+
+
 def check(ctx):
     py = ctx.py
     m = py.mod('annotationparser')
@@ -57,27 +126,8 @@ def check(ctx):
              'serialiser does not write annotations as ANN_LPAR name [space options] ANN_RPAR: %s' % [sh for sh in shapes if any(x == ('const', '(') for x in sh)], detail=shapes)
     r1.check(has_shape(['$', '=', '$']) and has_shape(['$']), 'options written as key=value / key', rel, ser.lineno, 'option shapes: %s' % [sh for sh in shapes if any(x == ('const', '=') for x in sh)])
     r1.check(len(seps) >= 2 and all(sp_ == [('const', ' ')] for sp_ in seps), 'options and annotations joined by one space', rel, ser.lineno, 'join separators: %s' % seps, detail=seps)
-    # dict parser: options split on ' ', each at the first '=' only
-    PD = gsa.summarise(ctx, 'annotationparser', 'GtkDocCommentBlockParser._parse_annotation_options_dict', inline_only=())
-    optp = [a_.arg for a_ in pd.args.args][-1]
-
-    def splitters(S, sep):
-        out = []
-        for c in S.effects:
-            if c.kind == 'call' and re.search(r'\.(r?split|r?partition)$', c.target) and c.args and c.args[0] == repr(sep):
-                out.append(c)
-        return out
-    osp = splitters(PD, ' ')
-    r1.check(len(osp) == 1 and osp[0].target == '%s.split' % optp and osp[0].args == ["' '"], 'dict options split on the serialiser\'s separator', rel, pd.lineno, 'option splits: %s' % [c.value for c in osp])
-    kv = splitters(PD, '=')
-    okkv = len(kv) == 1 and ((kv[0].target.endswith('.split') and kv[0].args == ["'='", '1']) or (kv[0].target.endswith('.partition') and kv[0].args == ["'='"]))
-    r1.check(okkv, 'key=value split at the first "=" only', rel, pd.lineno,
-             'key=value pairs are split with %s: a value that itself contains "=" (URLs, base64) is lost' % ([c.value for c in kv],), detail=[c.value for c in kv])
-    stores = [e for e in PD.effects if e.kind == 'store' and re.match(r'^\w+\[.*\]$', e.target)]
-    half = r"\.split\('=', 1\)\[%d\]$|\.partition\('='\)\[%d\]$"
-    okhalves = bool(stores) and all(re.search(half % (0, 0), e.target[:-1]) for e in stores) and \
-        sorted(set('None' if e.value == 'None' else ('second' if re.search(half % (1, 2), e.value) else e.value) for e in stores)) == ['None', 'second']
-    r1.check(okhalves, 'key and value taken from the two halves', rel, pd.lineno, 'stores: %s' % [(e.target, e.value) for e in stores])
+    kv_split_rule(ctx, r1)
+    splitters = _splitters
     # list parser
     PL = gsa.summarise(ctx, 'annotationparser', 'GtkDocCommentBlockParser._parse_annotation_options_list', inline_only=())
     lopt = [a_.arg for a_ in pl.args.args][-1]
@@ -145,6 +195,10 @@ def check(ctx):
     r1.check(ok, 'both line-ending conventions normalised before splitting', rel, cl[0].lineno if cl else f.lineno,
              'the comment is split into lines as `%s`: CRLF input keeps a trailing "\\r" on every line (blank " * " lines stop '
              'being paragraph breaks)' % why, detail=why)
+
+    # ---------------------------------------------------------------- R3 multi-line annotations accumulate
+    r3 = ctx.rule('R3', 'annotations continued on a following line extend (never replace) those already parsed', floor=4)
+    continuation_rule(ctx, r3)
 
     # ---------------------------------------------------------------- R2 vocabulary tables
     r2 = ctx.rule('R2', 'vocabulary tables consistent with each other, with TAG_RE and with the ast constants', floor=12)
